@@ -572,6 +572,60 @@ def unit_typed(unit):
                             agg.skipped["arith-non-vector-result"] += 1
                             continue
                         check_col(agg, f"arith.{form}", r, case)
+    elif what == "concat":
+        # `<<` results are typed by the rule applied to their values: left operands of every ladder kind, fresh or with a history
+        # (a None written in place, a None sliced away), right operands as Vector / list / scalar of every kind with and without None
+        from datetime import date as _d, datetime as _dt
+        kinds = {"bool": [True, False], "int": [1, -2], "float": [0.5, 2.0], "complex": [1j, 2 + 0j], "str": ["a", "b"], "date": [_d(2020, 1, 1), _d(2020, 1, 2)],
+                 "datetime": [_dt(2020, 1, 1, 3), _dt(2020, 1, 2, 4)]}
+        for ka in kinds:
+            for kb in kinds:
+                for lhist in ("fresh", "none-inside", "none-written-in-place", "none-written-then-overwritten", "none-sliced-away"):
+                    for rnone in (False, True):
+                        for form in ("vector", "list", "scalar", "vector-of-one"):
+                            a = list(kinds[ka]); b = list(kinds[kb])
+                            if rnone:
+                                if form == "scalar":
+                                    continue
+                                b[0] = None
+
+                            def left():
+                                if lhist == "fresh":
+                                    return Vector(list(a))
+                                if lhist == "none-inside":
+                                    return Vector([a[0], None])
+                                v = Vector(list(a))
+                                if lhist == "none-written-in-place":
+                                    v[1] = None
+                                elif lhist == "none-written-then-overwritten":
+                                    v[1] = None; v[1] = a[1]
+                                else:
+                                    v = Vector([None] + list(a))[1:]
+                                return v
+                            case = {"part": "concat", "left_kind": ka, "left_history": lhist, "right_kind": kb, "right_holds_none": rnone, "right_form": form}
+                            try:
+                                l = left()
+                                r = l << (Vector(list(b)) if form == "vector" else (list(b) if form == "list" else (b[1] if form == "scalar" else Vector([b[1]]))))
+                            except Exception:
+                                agg.skipped["concat-raises"] += 1
+                                continue
+                            agg.evals += 1; agg.transitions += 1; agg.states += 1
+                            if ka != kb or rnone or lhist != "fresh":
+                                agg.nontrivial += 1
+                            if type(r).__name__ == "Table" or not hasattr(r, "_underlying"):
+                                agg.skipped["concat-non-vector-result"] += 1
+                                continue
+                            if lhist in ("none-written-then-overwritten", "none-sliced-away") and not any(x is None for x in r._underlying):
+                                # a nullable flag left behind by the history may legitimately survive: only kind is judged then
+                                s_ = r.schema()
+                                want = expected_dtype(list(r._underlying))
+                                agg.compared += 1
+                                if s_ is None or (want[0] is not None and s_.kind is not want[0]):
+                                    agg.violation(V("concat." + form, f"expected-{kname(want[0])}-got-{kname(s_.kind) if s_ is not None else None}", dict(case, values=list(r._underlying)), fmt(want), None if s_ is None else fmt(dt_pair(s_))))
+                                else:
+                                    agg.outcomes["T-agree"] += 1
+                                continue
+                            check_col(agg, "concat." + form, r, case)
     elif what == "join":
         keysets = [[1], [2], [1, 2], [2, 1], [1, 1], [2, 3], [3, 1]]
         pay = {"int": [10, 20], "float": [0.5, 1.5], "str": ["x", "y"], "bool": [True, False],
@@ -798,7 +852,7 @@ def check(ctx):
     maxlen = ctx.pick(5, 6)
     units = [((a, b), maxlen) for a in SYMS for b in SYMS] + [((a,), 1) for a in SYMS] + [((), 0)]
     parts = core.pmap(unit_words, units)
-    tunits = [("arith", o) for o in OPS] + [("join",), ("agg",), ("csv",), ("assign",)]
+    tunits = [("arith", o) for o in OPS] + [("join",), ("agg",), ("csv",), ("assign",), ("concat",)]
     parts += core.pmap(unit_typed, tunits)
     parts += core.pmap(unit_long_words, [("long", a) for a in SYMS])
     parts += core.pmap(unit_subclasses, [("subclasses",)])
